@@ -723,6 +723,15 @@ func (e *Exec) callBuiltin(caller *frame, callpos token.Pos, fn *ssa.Builtin, ar
 		return nil
 	case "print", "println":
 		return nil
+	case "Sizeof", "Alignof":
+		// only reached in instantiated generic code (elsewhere the compiler folds it)
+		if sig, ok := fn.Type().(*types.Signature); ok && sig.Params().Len() == 1 {
+			sz := types.SizesFor("gc", "amd64")
+			if fn.Name() == "Sizeof" {
+				return e.c.BV(uint64(sz.Sizeof(sig.Params().At(0).Type())), 64)
+			}
+			return e.c.BV(uint64(sz.Alignof(sig.Params().At(0).Type())), 64)
+		}
 	case "len":
 		switch x := args[0].(type) {
 		case Str:
